@@ -14,6 +14,8 @@ type ReadResult<B> = BufResult<usize, Buffer<B>>;
 pub struct State<Io, B> {
     inner: StateInner<Io, B>,
     eof: bool,
+    /// The framer reported an error: the byte stream cannot be framed any more
+    failed: bool,
 }
 
 impl<Io> State<Io, Vec<u8>> {
@@ -21,6 +23,7 @@ impl<Io> State<Io, Vec<u8>> {
         State {
             inner: StateInner::Configuring(None, Some(Buffer::new())),
             eof: false,
+            failed: false,
         }
     }
 }
@@ -33,6 +36,7 @@ impl<Io, B> State<Io, B> {
         State {
             inner: StateInner::Configuring(Some(io), b),
             eof: false,
+            failed: false,
         }
     }
 
@@ -43,6 +47,7 @@ impl<Io, B> State<Io, B> {
         State {
             inner: StateInner::Configuring(io, Some(Buffer::new_with(buf))),
             eof: false,
+            failed: false,
         }
     }
 }
@@ -66,6 +71,10 @@ where
     fn poll_next(self: Pin<&mut Self>, cx: &mut Context<'_>) -> Poll<Option<Self::Item>> {
         let this = self.get_mut();
 
+        if this.read_state.failed {
+            return Poll::Ready(None);
+        }
+
         loop {
             match &mut this.read_state.inner {
                 StateInner::Configuring(io, buf) => {
@@ -78,7 +87,16 @@ where
 
                     // First try decode from the buffer
                     let inner = buf.inner();
-                    if let Some(frame) = this.framer.extract(inner)? {
+                    let extracted = match this.framer.extract(inner) {
+                        Ok(extracted) => extracted,
+                        Err(e) => {
+                            // keep the state consistent and end the stream after this error
+                            this.read_state.inner = StateInner::Idle(Some((io, buf)));
+                            this.read_state.failed = true;
+                            return Poll::Ready(Some(Err(e.into())));
+                        }
+                    };
+                    if let Some(frame) = extracted {
                         let (begin, end) = (inner.begin(), inner.end());
                         let slice = frame.slice(buf.take_inner()).flatten(); // focus on only the payload
                         let decoded = this.codec.decode(&slice);
